@@ -185,6 +185,8 @@ def random_script(rng, target, nsteps):
                           "size": rng.randrange(50, 1200), "dep": now, "gap": rng.choice([0, 1000])})
             if target == "rtpfb" and n <= 2 and rng.random() < 0.3:
                 steps[-1]["loop"] = True
+            elif target == "rtpfb" and rng.random() < 0.3:
+                steps[-1]["via"] = 5 - s         # RTX / FEC: packets of SSRC s leave through the writer bound for the other stream
             now += n * 1000
             streams[s] = (streams[s] + n) % 65536
         elif q < 0.52:
